@@ -149,7 +149,18 @@ func c11Gen(c *Ctx) (cs c11Case, cell string) {
 		kind := c11IntKinds[r.Intn(10)]
 		base := []int{10, 10, 16, 2, 8, 36, 7}[r.Intn(7)]
 		txt := GenScalarText(r, kind, base, 0)
-		switch r.Intn(8) {
+		switch r.Intn(10) {
+		case 7, 8:
+			// digit separators are Go source syntax, not part of any declared base: 1_000, 0_17, 0x_ff, 0b1_1
+			if r.Bool() && len(txt) > 1 {
+				i := 1 + r.Intn(len(txt)-1)
+				txt = txt[:i] + "_" + txt[i:]
+			} else {
+				txt = []string{"1_000", "0_17", "0x_ff", "0b1_1", "0_755", "1__0", "_1", "0o_7", "-1_0", "+0_1"}[r.Intn(10)]
+				if r.Bool() {
+					base = 10
+				}
+			}
 		case 0:
 			txt = " " + txt
 		case 1:
